@@ -199,7 +199,7 @@ def _docs():
         rows.append([Chord((Note('8', pitch='C'), Note('8', pitch='e', acc='-')))])
     rows.append([Op(T)])
     D.append(Doc(rows))
-    # naturals and display suffixes (open finding)
+    # naturals and display suffixes
     D.append(Doc([[H('**kern')], [sig('*clefG2', 'CLEF')], [Note('4', pitch='c', acc='n')], [Note('4', pitch='d', acc='#', disp='X')],
                   [Note('4', pitch='e')], [Op(T)]]))
     return D
@@ -209,8 +209,10 @@ DOCS = []
 
 
 def load(tier):
-    global DOCS
+    global DOCS, OCTS_D
     DOCS = _docs()
+    if tier == 'thorough':
+        OCTS_D = tuple(range(9))
 
 
 def _parse_pa(pa):
@@ -256,7 +258,6 @@ def _c_body(di, e):
         return f
     has_nat = any(isinstance(n, Note) and (n.acc == 'n' or n.disp) for r in D.rows for c in r
                   for n in (c.notes if isinstance(c, Chord) else [c]) if isinstance(n, Note))
-    ctx.known('KF-C10-natural-and-display-suffix', has_nat)
     doc, errs = kp.loads(D.text())
     check(not errs, 'import errors')
     enc = ('akern', 'aekern')[e]
@@ -265,15 +266,67 @@ def _c_body(di, e):
     check(got == exp, f'{enc} export {got}, expected (each note under the clef in force on its spine path) {exp}')
     # differs from the kern export only in the pitch letters of notes; exporting in an agnostic encoding leaves the document as it was
     plain = cells.parse_grid(kp.dumps(doc, encoding=(kp.Encoding.normalizedKern, kp.Encoding.eKern)[e]))
-    if not has_nat:
-        check(plain == D.expected(('kern', 'ekern')[e]), f'the {("kern", "ekern")[e]} export AFTER an {enc} export is {plain}, expected {D.expected(("kern", "ekern")[e])}')
-        again = cells.parse_grid(kp.dumps(doc, encoding=(kp.Encoding.agnosticKern, kp.Encoding.agnosticExtendedKern)[e]))
-        check(again == got, f'a second {enc} export differs from the first: {again} vs {got}')
+    check(plain == D.expected(('kern', 'ekern')[e]), f'the {("kern", "ekern")[e]} export AFTER an {enc} export is {plain}, expected {D.expected(("kern", "ekern")[e])}')
+    again = cells.parse_grid(kp.dumps(doc, encoding=(kp.Encoding.agnosticKern, kp.Encoding.agnosticExtendedKern)[e]))
+    check(again == got, f'a second {enc} export differs from the first: {again} vs {got}')
     check(len(plain) == len(got) and all(len(a) == len(b) for a, b in zip(plain, got)), 'grid differs from the kern export')
     flat = [c for r in D.rows for c in r]
     for (a, b, c) in zip([x for r in plain[1:] for x in r], [x for r in got[1:] for x in r], [c for r in D.rows[1:] for c in r]):
         if not isinstance(c, (Note, Chord)) or (isinstance(c, Note) and c.is_rest):
             check(a == b, f'non-note cell {c.source()!r}: kern {a!r} vs agnostic {b!r}')
+    return True
+
+
+
+# ------------------------------------------------------------------ C10.d naturals / display suffixes through the real pipeline
+ACCS_D = ('', 'n', '#', '##', '-', '--')
+DISPS = ('', 'x', 'X', 'i', 'I', 'j', 'Z', 'y', 'yy', 'Y', 'YY')
+
+
+OCTS_D = (0, 3, 4, 5, 8)
+
+
+def ob_d(c: int, letter: int, o: int, a: int) -> bool:
+    assume(0 <= c < 7 and 0 <= letter < 7 and 0 <= o < len(OCTS_D) and 0 <= a < len(ACCS_D))
+    return _d_body(choose(c, 7), choose(letter, 7), OCTS_D[choose(o, len(OCTS_D))], choose(a, len(ACCS_D)))
+
+
+@native
+def _d_body(c, letter, octave, a):
+    """Notes (alone and inside a chord) imported by the real parser and exported in akern / aekern, one line per display suffix the
+    grammar reads after this accidental: the letters are the G2 pitch of the same staff position, the accidental -- natural
+    included -- and its display suffix are carried over unchanged."""
+    mark = MARKS[(letter + octave) % 5]
+    clef_t = clef_text(CLEF_BASES[c], mark)
+    bl = gk.ClefFactory.create_clef(clef_t).bottom_line()
+    bL, _ = rp.name_parts(bl.name)
+    acc = ACCS_D[a]
+    src = rp.humdrum(letter, 0, octave)
+    exp = model_agnostic(letter, 0, octave, bL, bl.octave)
+    other_src, other_exp = rp.humdrum((letter + 2) % 7, 0, 4), model_agnostic((letter + 2) % 7, 0, 4, bL, bl.octave)
+    disps = DISPS if acc else ('',)            # the grammar reads a display suffix only after an accidental
+    kern, ak_want, aek_want = [], [], []
+    for i, disp in enumerate(disps):
+        kern.append(f'4{src}{acc}{disp}L')
+        ak_want.append(f'4{exp}{acc}{disp}L')
+        aek_want.append(f'4@{exp}{acc}{disp}\u00b7L')
+        if i in (0, 1 + (letter + octave) % 10):           # the same note inside a chord: without suffix and with one of them
+            kern.append(f'8{other_src} 8{src}{acc}{disp}')
+            ak_want.append(f'8{other_exp} 8{exp}{acc}{disp}')
+            aek_want.append(f'8@{other_exp} 8@{exp}{acc}{disp}')
+    text = '\n'.join(['**kern', clef_t] + kern + ['*-']) + '\n'
+    doc, errs = kp.loads(text)
+    check(not errs, lambda: f'{text!r}: import errors {errs}')
+    ak = kp.dumps(doc, encoding=kp.Encoding.agnosticKern).split('\n')
+    want = ['**akern', clef_t] + ak_want + ['*-', '']
+    check(ak == want, lambda: f'akern of {text!r}: ' + '; '.join(f'line {i + 1} is {g!r}, expected {w!r}' for i, (g, w) in enumerate(zip(ak, want)) if g != w)
+          + (f' ({len(ak)} lines, expected {len(want)})' if len(ak) != len(want) else ''))
+    aek = kp.dumps(doc, encoding=kp.Encoding.agnosticExtendedKern).split('\n')
+    want = ['**aekern', clef_t] + aek_want + ['*-', '']
+    check(aek == want, lambda: f'aekern of {text!r}: ' + '; '.join(f'line {i + 1} is {g!r}, expected {w!r}' for i, (g, w) in enumerate(zip(aek, want)) if g != w)
+          + (f' ({len(aek)} lines, expected {len(want)})' if len(aek) != len(want) else ''))
+    k = kp.dumps(doc)
+    check(k == text, lambda: f'kern export after the agnostic exports is {k!r}, expected {text!r}')
     return True
 
 
@@ -288,4 +341,10 @@ OBLIGATIONS = [
     Ob(id='C10.c', fn=ob_c, title='documents: akern / aekern == kern / ekern with each note converted under the clef in force on its spine path',
        budget_s={'quick': 120, 'thorough': 600}, witnesses=[{'d': 0, 'e': 0}], min_confirmed=6, enumerated='document, plain / extended',
        bounds={'quick': '4 documents (clef changes mid-score, chords, split with staggered clef changes and join, every clef in turn, naturals)', 'thorough': 'same'}),
+    Ob(id='C10.d', fn=ob_d, title='naturals and accidental-display suffixes through loads -> dumps(akern / aekern): letters moved, accidental and suffix unchanged',
+       shard_of=lambda c, letter, o, a: c + 7 * letter, shards={'quick': 16, 'thorough': 16}, budget_s={'quick': 170, 'thorough': 1200},
+       witnesses=[{'c': 2, 'letter': 0, 'o': 2, 'a': 1}, {'c': 0, 'letter': 1, 'o': 2, 'a': 2}], min_confirmed=1200,
+       enumerated='clef, letter, octave, accidental (none, natural, 1-2 sharps / flats); every display suffix inside each document',
+       bounds={'quick': '7 clefs (octave mark rotating) x 7 letters x octaves {0, 3, 4, 5, 8} x 6 accidentals = 1 470 documents; each holds the note once per display suffix (11 after an accidental) and twice inside a chord',
+               'thorough': 'octaves 0..8: 2 646 documents'}),
 ]
